@@ -45,6 +45,9 @@ class ESP:
         out.append(dict(types=["spherical"], nuc=1, npts=1, transform="square", thr="pos"))
         out.append(dict(types=["cartesian", "spherical"], nuc=1, npts=1, transform="rect", thr="pos"))
         out.append(dict(types=["spherical", "spherical"], nuc=2, npts=1, transform="rect", thr="zero"))
+        # mixed route without a transformation; the second shell (two segments) Cartesian, then spherical
+        out.append(dict(types=["spherical", "cartesian"], nuc=1, npts=1, transform=None, thr="zero"))
+        out.append(dict(types=["cartesian", "spherical"], nuc=1, npts=1, transform=None, thr="pos"))
         out.append(dict(types=["cartesian"], nuc=1, npts=1, transform=None, thr="zero"))
         out.append(dict(types=["cartesian"], nuc=1, npts=1, transform=None, thr="default"))
         out.append(dict(types=["cartesian"], nuc=2, npts=1, transform=None, thr="pos", coincide=[0]))
@@ -184,7 +187,7 @@ class ESPInline:
 
     def shapes(self, tier):
         out = [dict(types=["cartesian", "cartesian"], transform=None), dict(types=["spherical", "cartesian"], transform="rect"),
-               dict(types=["cartesian", "cartesian"], transform="eye")]
+               dict(types=["cartesian", "cartesian"], transform="eye"), dict(types=["spherical", "cartesian"], transform=None, M=[1, 2])]
         if tier == "thorough":
             out += [dict(types=["spherical", "spherical"], transform="square"), dict(types=["cartesian", "spherical"], transform=None, nuc=2)]
         return out
@@ -195,7 +198,8 @@ class ESPInline:
         esp = M.mods["gbasis.evals.electrostatic_potential"]
         pc = M.mods["gbasis.integrals.point_charge"]
         types = shape["types"]
-        basis = build_shells(M, [dict(l=i, M=1, type=t) for i, t in enumerate(types)])
+        Ms = shape.get("M", [1] * len(types))
+        basis = build_shells(M, [dict(l=i, M=Ms[i], type=t) for i, t in enumerate(types)])
         ncont = sum(s.norm_cont.shape[0] * (s.num_cart if t == "cartesian" else s.num_sph) for s, t in zip(basis, types))
         tr = shape["transform"]
         if tr == "eye":
